@@ -321,7 +321,16 @@ impl Prop for C09 {
 				}
 			}
 			"slatepack_bin" | "slatepack_json" => {
-				let packer = Slatepacker::new(SlatepackerArgs { sender: None, recipients: vec![], dec_key: None });
+				// with and without the optional sender field, plain and encrypted to the wallet
+				let mut rr = SimRng::new(seed ^ 0x5b1);
+				let sender = if rr.chance(2, 3) { owner.get_slatepack_address(mask.as_ref(), 1).ok() } else { None };
+				let recipients = if rr.chance(1, 3) {
+					owner.get_slatepack_address(mask.as_ref(), 0).ok().into_iter().collect()
+				} else {
+					vec![]
+				};
+				let dec_key = owner.get_slatepack_secret_key(mask.as_ref(), 0).ok();
+				let packer = Slatepacker::new(SlatepackerArgs { sender, recipients, dec_key: dec_key.as_ref() });
 				let sp = match packer.create_slatepack(&slate) {
 					Ok(s) => s,
 					Err(_) => return OpRes::Skipped("cannot pack".into()),
@@ -470,7 +479,7 @@ impl Prop for C09 {
 					Err(_) => return OpRes::Skipped("no address".into()),
 				};
 				let mut r = SimRng::new(seed ^ 0xe2c);
-				let plaintext: Vec<u8> = match r.below(8) {
+				let plaintext: Vec<u8> = match r.below(9) {
 					0 => vec![],
 					1 => { let k = 1 + r.below(3) as usize; r.bytes(k) },
 					2 => {
@@ -482,6 +491,21 @@ impl Prop for C09 {
 					3 => {
 						let mut v = u32::MAX.to_be_bytes().to_vec();
 						v.extend(r.bytes(8));
+						v
+					}
+					7 => {
+						// honest metadata for one recipient, then its length fields edited
+						let mut meta = vec![];
+						// (version 1.0? no: opt flags (2) | len (4) | fields) : flags say
+						// "sender + recipients present", lengths are lies
+						meta.extend_from_slice(&[0x00, 0x03]);
+						let l = *r.pick(&[0u32, 1, 2, 3, 5, 40, 0xffff_ffff]);
+						meta.extend_from_slice(&l.to_be_bytes());
+						let k = r.below(80) as usize;
+						meta.extend(r.bytes(k));
+						let mut v = (meta.len() as u32).to_be_bytes().to_vec();
+						v.extend(meta);
+						v.extend(r.bytes(20));
 						v
 					}
 					4 => {
@@ -510,9 +534,23 @@ impl Prop for C09 {
 						v
 					}
 				};
-				let ct = match age_encrypt(&addr, &plaintext) {
-					Some(c) => c,
-					None => return OpRes::Skipped("cannot encrypt".into()),
+				let ct = if seed % 11 == 0 {
+					// an age file of the passphrase kind instead of the recipients kind
+					let enc = age::Encryptor::with_user_passphrase(secrecy::Secret::new("hunter2".to_owned()));
+					let mut out = vec![];
+					match enc.wrap_output(&mut out) {
+						Ok(mut wtr) => {
+							let _ = wtr.write_all(&plaintext);
+							let _ = wtr.finish();
+						}
+						Err(_) => return OpRes::Skipped("cannot encrypt".into()),
+					}
+					out
+				} else {
+					match age_encrypt(&addr, &plaintext) {
+						Some(c) => c,
+						None => return OpRes::Skipped("cannot encrypt".into()),
+					}
 				};
 				let mut sp = Slatepack::default();
 				sp.mode = 1;
@@ -521,6 +559,8 @@ impl Prop for C09 {
 					Ok(t) => t,
 					Err(_) => return OpRes::Skipped("cannot armor".into()),
 				};
+				// (producing a passphrase-type age file runs scrypt in the harness itself)
+				crate::alloc::rebase();
 				res!(owner.slate_from_slatepack_message(mask.as_ref(), text, vec![0]))
 			}
 			_ => OpRes::Skipped("unknown entry".into()),
